@@ -237,3 +237,23 @@ def build(params, symbolic):
     h.expect = [] if twin else (["sentence"] if strat == "default" else ["recovered_custom"])
     h.stubs = ["realize_atomic", "get_context", "counting wrapper on default_error_recovery"]
     return h
+
+
+def replay_known(k):
+    """Known findings of C11 lie outside the explored bound (long inputs, 4+ nonterminals): replayed natively as given."""
+    still = []
+    for name in k["inputs"]:
+        gtext, w = k["native"][name]
+        p = GLRParser(Grammar.from_string(gtext), error_recovery=True)
+        try:
+            p.parse(w)
+        except parglare.SyntaxError:
+            continue
+        spans = [(e.location.start_position, e.location.end_position) for e in p.errors]
+        prev = 0
+        for a, b in spans:
+            if not (isinstance(a, int) and isinstance(b, int) and a <= b and a >= prev):
+                still.append(name)
+                break
+            prev = b
+    return still
